@@ -42,7 +42,16 @@ def encode_name(rng, s):
 
 def gen_bytes(rng, maxlen=4096):
     n = rng.randint(0, rng.choice([0, 1, 2, 3, 5, 8, 16, 32, 64, 128, 256, 512, 1024, 2048, maxlen]))
-    k = rng.randint(0, 4)
+    k = rng.randint(0, 6)
+    if k == 5:      # minimal early definitions, entropy for the later sections (fragments, operations)
+        z = rng.randint(0, min(n, 400))
+        return bytes(z) + bytes(rng.randrange(256) for _ in range(n - z))
+    if k == 6:      # zero runs with random bursts
+        out = bytearray()
+        while len(out) < n:
+            out += bytes(rng.randint(0, 60))
+            out += bytes(rng.randrange(256) for _ in range(rng.randint(1, 12)))
+        return bytes(out[:n])
     if k == 0:
         return bytes(rng.randrange(256) for _ in range(n))
     if k == 1:
@@ -279,8 +288,8 @@ def run(ctx):
         "smith_names: every byte string of length <= 3 over 12 class representatives (size / charset boundaries, the "
         "`_` index, 0x00, 0xff), byte strings encoding sequences of chosen names (reserved words, trailing "
         "underscores, names colliding with suffixed names, 30-character names) and random bytes, 1-40 calls each; "
-        f"smith_document: {ndocs} byte strings of length 0-4096 from five distributions (uniform, mostly 0x00, mostly "
-        "0xff, repeated 1-6 byte patterns, boundary bytes) plus corpus/C32; smith_facts: every generated document that "
+        f"smith_document: {ndocs} byte strings of length 0-4096 from seven distributions (uniform, mostly 0x00, mostly "
+        "0xff, repeated 1-6 byte patterns, boundary bytes, zero prefix + uniform, zero runs with random bursts) plus corpus/C32; smith_facts: every generated document that "
         "parses; smith_operation: generated schemas x random bytes (<= 512) plus one witness per known panic class.  "
         "A document case is non-trivial if a document is returned.")
     ctx.cov["exhaustive"] = False
